@@ -105,6 +105,8 @@ def q2_typecheck(f):
         # FIXME: If the first argument passed to a query2 function is a straight [] then the second argument disappears from the argument list for unknown reasons, which breaks things
         for i, p in enumerate(sig.parameters):
             param = sig.parameters[p]
+            if i >= len(args):
+                break  # missing arguments are reported by the call itself (TypeError)
 
             # print(f"Checking that param ({param}) was {param.annotation}, value: {args[i]}")
             # FIXME: Won't check keyword arguments
